@@ -40,6 +40,7 @@ type Path struct {
 	pos       int
 	taken     []int // decisions actually taken on this path
 	pc        []string
+	lazy      []string // heavy constraints: only asserted in obligation/witness queries
 	decls     []string // (declare-const ...) lines in order
 	declSet   map[string]bool
 	inputs    []string // nondet input symbol names in creation order
@@ -59,6 +60,7 @@ type Path struct {
 	regs      []region
 	memo      map[string]interface{}
 	facts     map[string]bool
+	alpha     map[string]*[256]bool // term -> allowed bytes
 }
 
 type observation struct {
@@ -183,7 +185,7 @@ func (p *Path) refine(c *Sym, truth bool) {
 
 func (p *Path) refineCmp(op string, x, y value) {
 	xs, ok := x.(*Sym)
-	if !ok || xs.op != "var" {
+	if !ok || (xs.op != "var" && xs.op != "len") {
 		return
 	}
 	yl, yh := p.ivOf(y)
@@ -214,8 +216,9 @@ func (p *Path) refineCmp(op string, x, y value) {
 	p.varIv[xs.e] = iv
 }
 
-// query text for the current path condition plus extra assertions.
-func (p *Path) queryText(extra ...string) string {
+// query text for the current path condition plus extra assertions; full
+// includes the lazily kept heavy constraints.
+func (p *Path) queryText(full bool, extra ...string) string {
 	var b strings.Builder
 	for _, d := range p.decls {
 		b.WriteString(d)
@@ -225,6 +228,13 @@ func (p *Path) queryText(extra ...string) string {
 		b.WriteString("(assert ")
 		b.WriteString(c)
 		b.WriteString(")\n")
+	}
+	if full {
+		for _, c := range p.lazy {
+			b.WriteString("(assert ")
+			b.WriteString(c)
+			b.WriteString(")\n")
+		}
 	}
 	for _, c := range extra {
 		b.WriteString("(assert ")
@@ -251,3 +261,16 @@ func sortedKeysOf(m map[string]ModelVal) []string {
 	sort.Strings(ks)
 	return ks
 }
+
+// noContain: is the one-byte string c provably absent from segment term e?
+func (p *Path) noContain(e string, c string) bool {
+	if p.facts["nc|"+e+"|"+c] {
+		return true
+	}
+	if a, ok := p.alpha[e]; ok && len(c) == 1 && !a[c[0]] {
+		return true
+	}
+	return false
+}
+
+func (p *Path) setAlpha(e string, allowed *[256]bool) { p.alpha[e] = allowed }
